@@ -2,4 +2,5 @@
 EXTENDS Cholesky
 PartsS == -1..1
 PartsQ == -2..2
+Parts01 == 0..1
 ====
